@@ -11,7 +11,7 @@ IMAGES = [b"", b"text ![alt](i.png) more\n\n", b"![fig](f.png \"Title\")\n\n", b
           b"![alt](i.png \"with title\") x\n\n",
           # several assets whose names differ in length, extension length and directory
           b"![p](photo.jpeg) then ![i](i.png) and ![n](noext)\n\n", b"![i](i.png) ![d](sub/deep.gif) ![p](photo.jpeg) ![f](f.png)\n\n"]
-TAILS = [b"", b"para *e* `c` [l](http://u/?a=1&b=2)\n\n{{TOC}}\n\n| a | b |\n|---|---|\n| c | d |\n\n[^f]: note\n\ntext[^f]\n"]
+TAILS = [b"", b"para *e* `c` [l](http://u/?a=1&b=2)\n\n{{TOC}}\n\n| a | b |\n|---|---|\n| c | d |\n\n[^f]: note\n\ntext[^f]\n\n```{=html}\n<div class=\"raw\">raw block</div>\n```\n\nraw `<b>inline</b>`{=html} and `\\x`{=latex} and `<i>any</i>`{=*} end\n"]
 FORMATS = [("epub", 1), ("odt", 6), ("bundlezip", 8), ("itmz", 10)]
 
 def xml_err(data):
